@@ -4,6 +4,11 @@ set -u
 id=$1; name=$2; what=$3
 res=$(/verif/tools/seed_verify.sh /tmp/seed-$id | sort | uniq -c)
 echo "$res"
+if echo "$res" | grep -q "demo with patch.*PASS" && ! echo "$res" | grep -q "demo with patch.*FAIL"; then
+  echo "demo passes with the patch: trying again under the race detector"
+  res=$(SEED_RACE=1 /verif/tools/seed_verify.sh /tmp/seed-$id | sort | uniq -c | sed 's/(run/(-race run/')
+  echo "$res"
+fi
 if ! echo "$res" | grep -q "suite with patch: PASS"; then echo "NOT ADOPTED: suite fails"; exit 1; fi
 if echo "$res" | grep -q "demo with patch.*PASS" && ! echo "$res" | grep -q "demo with patch.*FAIL"; then echo "NOT ADOPTED: demo does not fail with patch"; exit 1; fi
 if echo "$res" | grep -q "demo without patch.*FAIL"; then echo "NOT ADOPTED: demo fails without patch"; exit 1; fi
